@@ -10,7 +10,7 @@ import tempfile
 import time
 from pathlib import Path
 
-from tools.corr.C09_defs import Builder
+from tools.corr.C09_defs import COMBOS, Builder
 from tools.corr.C09_runner import KProperty, is_sub_threshold, physical_point
 from tools.lib import common
 
@@ -28,7 +28,7 @@ def build():
 
     b = Builder(PhaseSpaceFactor)
     b.matrix_level_kmatrix()
-    b.parametrisations_kmatrix()
+    b.parametrisations_kmatrix(combos=[*COMBOS, (2, 3), (2, 4)])  # 3 and 4 poles: parametrisation only
     b.formulated_kmatrix()
     return b.out, {}, {"translated_families": sorted({k.family for k in b.out})}
 
@@ -310,16 +310,18 @@ MANIFEST = {
         "(proved via the positive definite Gram matrix), S = 1+2iK(1−iK)⁻¹ satisfies S†S = 1, K symmetric ⇒ T symmetric; "
         "ρ positive diagonal and K̂ Hermitian ⇒ √ρK̂(1−iρK̂)⁻¹√ρ = K'(1−iK')⁻¹ with K' = √ρK̂√ρ, hence unitary/symmetric; the pole "
         "parametrisation Σ_R g_Ri g_Rj/(m_R²−s) is real symmetric for real g (Finset sum, any number of poles). Tied to the source: the "
-        "entries of formulate(parametrize=False) for n = 1, 2 (both classes, T̂ and T), the parametrisations and the full "
-        "formulate(n, n_poles) results for n, n_poles ∈ {1,2} are re-translated on every run and 61 theorems are re-checked: the "
+        "entries of formulate(parametrize=False) for n = 1, 2 (both classes, T̂ and T), the parametrisations (n_R = 1..4) and the full "
+        "formulate(n, n_R) results for n, n_R ∈ {1,2} are re-translated on every run and 69 theorems are re-checked: the "
         "regenerated entries solve E(1−iK) = K resp. Ê(1−iρK̂) = K̂ (polynomial identities mod i² = −1) and therefore ARE the abstract "
         "formula wherever det ≠ 0; T = (√ρ)*T̂√ρ; the regenerated parametrisations are symmetric and real (non-negative widths; for the "
         "relativistic case under the guard ρ_i(m_R²) > 0, i.e. poles above thresholds) and equal the all-poles formula (n=n_R=2, "
         "non-relativistic); formulate = matrix expression ∘ parametrisation; hence formulate(n, n_R) is unitary and symmetric. "
-        "Bounded part: the entry-level tie is for n ≤ 2 and n_R ≤ 2 (n = 3 only numerically in the thorough tier, subprocess-capped; "
-        "n_R ≤ 4 numerically); form factors and phase-space factors are leaves with sign hypotheses. Known finding: the relativistic "
-        "K-matrix with a pole mass below a channel threshold is not unitary (kernel-checked witness relForm11_witness_subthreshold; "
-        "the oracle classifies such inputs by signature, any other failing input is a violation)."
+        "Thorough tier: the same entry-level theorems for n = 3 (Props/C09N3, 14 theorems; the 3×3 symbolic inverse is extracted in a "
+        "time-capped subprocess). Bounded part: the entry-level tie is for n ≤ 3 (matrix expression) and n, n_R ≤ 2 (full formulate); "
+        "n_R = 3, 4 parametrisation only, full formulate with n = 3 or n_R ≤ 4 numerically (thorough oracle); form factors and "
+        "phase-space factors are leaves with sign hypotheses. Known finding: the relativistic K-matrix with a pole mass below a channel "
+        "threshold is not unitary (kernel-checked witness relForm11_witness_subthreshold; the oracle classifies such inputs by "
+        "signature, any other failing input is a violation)."
     ),
     "level_note": (
         "Trusted: Lean kernel + Mathlib (axioms propext, Classical.choice, Quot.sound); the sympy->Lean translator incl. the leaf "
